@@ -83,8 +83,9 @@ func c03GenItem(fn string, n int, r *rand.Rand) *c03Item {
 	switch {
 	case fn == "sumdiff":
 		// each argument reads a single column, so a NULL input is simply skipped by its own sum
-		args := []string{"v*2", "w*3", "v+1.5", "o.x*2", "w-1", "v", "w"}
-		i := r.Intn(5) // at least one of the two is an expression
+		// (a subtraction written without blanks, `w-1`, reaches the parser as a name and a signed literal)
+		args := []string{"v*2", "w*3", "v+1.5", "o.x*2", "w-1", "v-1", "o.x-2.5", "v", "w"}
+		i := r.Intn(7) // at least one of the two is an expression
 		j := r.Intn(len(args) - 1)
 		if j >= i {
 			j++
